@@ -97,6 +97,9 @@ COVERAGE_PATTERNS = [
     "@2 i1 u1 @3 i2 u2 @4 i4 u4 z 00",                    # Aligned Read* Zero
     "( 01 | 02 ' | 03 ( 04 | 05 ) ) 06",                  # Case Break Nop, nested
     "\"text\" 00 [1000] 'FF",                            # quoted bytes, a long skip (Rangext + Skip)
+    # white space INSIDE a quoted section is data: CR LF pairs, runs of spaces, tabs (a normalisation of the
+    # literal before parsing - CRLF -> LF, collapsed spaces, trimming - changes the bytes)
+    "68 * \"OK\r\n\" 00", "\"a  b   c\" 00", "\"\r\n\r\n\" \" \t \"", "\"  \" \"\n\r\" 00", "E8 \" x \"",
 ]
 
 
